@@ -12,6 +12,7 @@ structure St where
   w : World := {}
   nd : Option (Node Fr) := none
   names : List (String × Nat) := []            -- block name ↦ id
+  gens : List (String × Nat) := []
   attached : List (String × List (Ticket Fr)) := []
 deriving Inhabited
 
@@ -45,7 +46,8 @@ def status (s : St) (nd : Node Fr) (n : String) : String :=
 def mkBlk (s : St) (n : String) : Option (Blk Fr) := do
   let id ← blockId? s n
   let h ← msg? s.w s!"blk-{n}"
-  pure { id := id, h := h, tickets := attachedOf s n, notarized := false }
+  let g ← (s.gens.find? (·.1 == n)).map (·.2)
+  pure { id := id, gen := g, h := h, tickets := attachedOf s n, notarized := false }
 
 def step (s : St) (ws : List String) : St × String :=
   match ws with
@@ -55,13 +57,13 @@ def step (s : St) (ws : List String) : St × String :=
       | some sks =>
         if k = 0 then (s, "bad-op") else
         ({ s with nd := some { pks := sks.map pubKey, threshold := (k * 66 + 99) / 100, blocks := [], store := [], roundNotarized := [] },
-                  names := [], attached := [] }, "ok")
+                  names := [], gens := [], attached := [] }, "ok")
       | none => (s, "bad-op")
     | none => (s, "bad-op")
   | ["block", n, g, h] => match s.nd, g.toNat?, Fr.parse? h with
     | some nd, some g, some h =>
       if g ≥ nd.pks.length ∨ (blockId? s n).isSome then (s, "bad-op") else
-      ({ s with names := s.names ++ [(n, s.names.length)],
+      ({ s with names := s.names ++ [(n, s.names.length)], gens := s.gens ++ [(n, g)],
                 w := { s.w with msgs := (s.w.msgs.filter (·.1 != s!"blk-{n}")) ++ [(s!"blk-{n}", h)] } }, "ok")
     | _, _, _ => (s, "bad-op")
   | ["attach", n, es] => match blockId? s n, tickets? s es with
@@ -71,7 +73,7 @@ def step (s : St) (ws : List String) : St × String :=
     | some nd, some b => let nd' := processVerifyBlock nd b; ({ s with nd := some nd' }, status s nd' n)
     | _, _ => (s, "bad-op")
   | ["know", n] => match s.nd, mkBlk s n with
-    | some nd, some b => let nd' := know nd { b with tickets := [] }; ({ s with nd := some nd' }, status s nd' n)
+    | some nd, some b => let nd' := know nd b; ({ s with nd := some nd' }, status s nd' n)
     | _, _ => (s, "bad-op")
   | ["ticket", n, e] => match s.nd, mkBlk s n, ticket? s e with
     | some nd, some b, some t => let nd' := handleTicket nd b.id b.h t; ({ s with nd := some nd' }, status s nd' n)
